@@ -722,9 +722,27 @@ func registerAnimEnc(id string, alphaOnly bool, configs func(e *fw.Env) []aeConf
 			cfgs := configs(e)
 			ns := 0
 			for ci, cfg := range cfgs {
-				for pass := 0; pass < 3; pass++ {
-					sys := mk(e, e.Seed, cfg, pass == 2)
+				for pass := 0; pass < 4; pass++ {
+					sys := mk(e, e.Seed, cfg, pass >= 2)
 					dep := depth(e)
+					if pass == 3 {
+						// fourth search: the key-frame-fallback family on the large canvas, one level deeper.
+						// What follows a fallback key frame (a repeat of it: whose duration grows? a mostly
+						// transparent picture: which frame is told to dispose?) needs a sub-frame BEFORE the
+						// fallback, i.e. four frames.
+						var ops []aeOp
+						for _, o := range sys.ops {
+							switch sys.pics[o.Pic].name {
+							case "L-speckle", "L-speckle-2x2", "L-flat-glow-columns", "L-semi-band-alone":
+								ops = append(ops, o)
+							}
+						}
+						sys.ops = ops
+						dep++
+						if len(ops) == 0 {
+							continue
+						}
+					}
 					if pass == 0 && e.Quick() && ci >= 3 && !alphaOnly {
 						continue // quick: full alphabet on the first three configurations, core alphabet on all
 					}
@@ -746,7 +764,7 @@ func registerAnimEnc(id string, alphaOnly bool, configs func(e *fw.Env) []aeConf
 							for _, i := range h {
 								ops = append(ops, sys.ops[i])
 							}
-							r.Violate("anim "+sys.Describe(h), v+" ["+sys.Describe(h)+"]", map[string]any{"ops": ops, "cfg": cfg, "large": pass == 2})
+							r.Violate("anim "+sys.Describe(h), v+" ["+sys.Describe(h)+"]", map[string]any{"ops": ops, "cfg": cfg, "large": pass >= 2})
 						},
 						OnState: func(key uint64, h []int) {
 							r.DistinctHash(key ^ uint64(ci)<<56 ^ uint64(pass)<<52)
